@@ -404,6 +404,153 @@ func bytesCase(c *CaseCtx, salt int64) *ContCase {
 	return cc
 }
 
+// runWideParentCase: MORE THAN 256 INLINED CHILDREN IN ONE SLAB. Every inlined map (and every inlined array of a type of its
+// own) has an entry in its parent slab's extra-data section and refers to it by a one-byte index. At slab sizes far above
+// the default one data slab can hold more than 256 such children; the library then refuses to encode the slab (a
+// documented limit, tolerated and counted here). Everything it does encode must still round-trip: the case appends small
+// inlined children one by one across the 256 boundary with the byte-level monitor after every operation, then removes
+// children until fewer than 256 remain, after which the commit must go through and the cold rebuild must agree.
+func runWideParentCase(c *CaseCtx, r *rand.Rand) *CaseResult {
+	slab := []uint32{32768, 16384, 32768}[r.Intn(3)]
+	variant := r.Intn(3)
+	res := &CaseResult{Config: map[string]any{"kind": "wide-parent", "slab_size": slab, "variant": []string{"array of inlined maps", "map of inlined maps", "array of inlined arrays with types of their own"}[variant]}}
+	atree.VerifSetThreshold(slab)
+	defer atree.VerifSetThreshold(1024)
+	w := NewWorld(c.CaseSeed(), addrOf(byte(1+c.Case%200), 0))
+	w.prof.MaxDepth = 0
+	w.prof.PContainer = 0
+	w.TolerateInlineLimit = true
+	w.mon = MonCfg{SizeEvery: 1, TreeEvery: 16, ColdAtCommit: true}
+	res.Stats = w.stats
+	finish := func(e error) *CaseResult {
+		if e != nil && e != errStop {
+			if v, ok := e.(*Violation); ok {
+				res.fail(v)
+			} else {
+				res.fail(viol("harness", "%v", e))
+			}
+		}
+		res.Trace = w.trace
+		res.Hash = traceHash(res.Config, w.trace)
+		res.NonTrivial = w.stats.Extra["wide-parent-children-beyond-256"] > 0
+		return res
+	}
+	defer func() {
+		if p := recover(); p != nil {
+			res.Trace = w.trace
+			panic(p)
+		}
+	}()
+	var root *Node
+	var err error
+	if variant == 1 {
+		root, err = w.NewRootMap(w.addr, TI{ID: 1}, nil)
+	} else {
+		root, err = w.NewRootArray(w.addr, TI{ID: 1})
+	}
+	if err != nil {
+		return finish(err)
+	}
+	w.AddRoot(root)
+	K := 258 + r.Intn(30)
+	w.logOp("create root %s slab=%d, %d inlined children", root, slab, K)
+	child := func(i int) (*Node, error) {
+		saveTrace := w.traceOn
+		w.traceOn = false
+		defer func() { w.traceOn = saveTrace }()
+		if variant == 2 {
+			a, err := w.NewRootArray(w.addr, TI{ID: uint64(1000 + i)})
+			if err != nil {
+				return nil, err
+			}
+			return a, w.OpArrayAppend(a, &Node{Kind: KU8, U: uint64(i % 200)})
+		}
+		m, err := w.NewRootMap(w.addr, TI{ID: uint64(2 + i%3)}, nil)
+		if err != nil {
+			return nil, err
+		}
+		if err := w.OpMapSet(m, &Node{Kind: KU8, U: 1}, &Node{Kind: KU64, U: uint64(i)}); err != nil {
+			return nil, err
+		}
+		if i%5 == 0 {
+			// a second level: an inlined map inside the inlined map (two entries for this child)
+			mm, err := w.NewRootMap(w.addr, TI{ID: 5}, nil)
+			if err != nil {
+				return nil, err
+			}
+			if err := w.OpMapSet(mm, &Node{Kind: KU8, U: 2}, &Node{Kind: KU8, U: 3}); err != nil {
+				return nil, err
+			}
+			if err := w.OpMapSet(m, &Node{Kind: KU8, U: 2}, mm); err != nil {
+				return nil, err
+			}
+		}
+		return m, nil
+	}
+	add := func(i int) error {
+		ch, err := child(i)
+		if err != nil {
+			return err
+		}
+		if root.Kind == KArr {
+			err = w.OpArrayAppend(root, ch)
+		} else {
+			err = w.OpMapSet(root, &Node{Kind: KU64, U: uint64(i)}, ch)
+		}
+		if err != nil {
+			return err
+		}
+		return w.AfterOp()
+	}
+	for i := 0; i < K; i++ {
+		if err := add(i); err != nil {
+			return finish(err)
+		}
+		if i >= 256 {
+			w.stats.Extra["wide-parent-children-beyond-256"]++
+		}
+	}
+	// back below the limit: now the commit must go through
+	remove := func() error {
+		var err error
+		if root.Kind == KArr {
+			err = w.OpArrayRemove(root, uint64(w.rng.Intn(len(root.Elems))))
+		} else {
+			err = w.OpMapRemove(root, w.existingKey(root))
+		}
+		if err != nil {
+			return err
+		}
+		return w.AfterOp()
+	}
+	count := func() int {
+		if root.Kind == KArr {
+			return len(root.Elems)
+		}
+		return len(root.M)
+	}
+	for count() > 190 {
+		if err := remove(); err != nil {
+			return finish(err)
+		}
+	}
+	if err := w.CommitAndCheck(false, 2); err != nil {
+		if err == errStop {
+			return finish(viol("commit-err", "the commit is refused because of the inlined-entry limit although only %d children (fewer than 256 entries) remain in the slab", count()))
+		}
+		return finish(err)
+	}
+	w.stats.Extra["wide-parent-cases-committed-below-the-limit"]++
+	// and across the boundary again on the decoded slab
+	w.DropCache()
+	for i := K; count() < 262; i++ {
+		if err := add(i); err != nil {
+			return finish(err)
+		}
+	}
+	return finish(w.CommitAndCheck(false, 2))
+}
+
 // batchFinal: last step of a byte-level case (the world is discarded afterwards)
 func batchFinal(w *World, root *Node, res *CaseResult) {
 	if err := w.batchBytes(4); err != nil {
@@ -416,6 +563,9 @@ func batchFinal(w *World, root *Node, res *CaseResult) {
 }
 
 func runC06(c *CaseCtx) *CaseResult {
+	if c.Case%24 == 23 {
+		return runWideParentCase(c, rand.New(rand.NewSource(c.CaseSeed()^0x256)))
+	}
 	cc := bytesCase(c, 0xc06)
 	cc.Final = batchFinal
 	res, w, _ := runContainerCase(c, cc)
@@ -425,6 +575,9 @@ func runC06(c *CaseCtx) *CaseResult {
 }
 
 func runC07(c *CaseCtx) *CaseResult {
+	if c.Case%24 == 23 {
+		return runWideParentCase(c, rand.New(rand.NewSource(c.CaseSeed()^0x256)))
+	}
 	cc := bytesCase(c, 0xc07)
 	// emphasis on extra-data layouts: many inlined children, same-typed composite maps with equal key sets
 	cc.Prof.PContainer = 55
@@ -763,6 +916,7 @@ func runC11(c *CaseCtx) *CaseResult {
 	cc.Prof.MaxDepth = 3
 	cc.Prof.PSome = 20
 	cc.Prof.MaxChildElems = 5
+	cc.Prof.Composite = c.Case%3 != 0 // same-typed composite maps side by side: the compact form shares key / digest lists
 	ops := 380
 	if c.Tier == "thorough" {
 		ops = 700 + r.Intn(1200)
